@@ -171,6 +171,8 @@ func (w *World) Exec(line string) (obs string) {
 		return w.opAcct(args)
 	case "selfmeta":
 		return w.opSelfMeta(args)
+	case "selfas":
+		return w.opSelfAs(args)
 	case "aliasing":
 		if len(args) != 1 || (args[0] != "on" && args[0] != "off") {
 			return obsBadOp
@@ -604,6 +606,28 @@ func (w *World) opSelfMeta(a []string) string {
 		sh.coord.self = sh.id
 	}
 	return "selfmeta ok"
+}
+
+// opSelfAs: `selfas <node> <id|own>` - the node is reassigned to serve shard <id> (its coordinator answers SelfId() = id
+// from now on, IN PLACE: container and function objects are the ones built before); `own` gives it its own shard back.
+func (w *World) opSelfAs(a []string) string {
+	if len(a) != 2 {
+		return obsBadOp
+	}
+	sh, ok := w.shardArg(a[0])
+	if !ok {
+		return obsBadOp
+	}
+	if a[1] == "own" {
+		sh.coord.self = sh.id
+		return "selfas ok"
+	}
+	n, ok := parseU64(a[1])
+	if !ok || n >= uint64(len(w.shards)) {
+		return obsBadOp
+	}
+	sh.coord.self = uint32(n)
+	return "selfas ok"
 }
 
 func (w *World) opFault(a []string) string {
